@@ -212,16 +212,23 @@ def run_trj(ctx, rng, idx):
         nfiles = int(rng.integers(1, 13))
         n_atoms = int(rng.integers(3, 8))
         fmt = ['h5', 'xtc'][int(rng.integers(0, 2))]
-        lens = [int(x) for x in rng.integers(1, 41, size=nfiles)]
+        many = idx % 6 == 5
+        if many:
+            # more files than any batching/chunking constant one would pick
+            nfiles = int(rng.integers(65, 160))
+            n_atoms = 3
+        lens = [int(x) for x in rng.integers(1, 6 if many else 41,
+                                              size=nfiles)]
         if rng.random() < 0.2:
             lens = [lens[0]] * nfiles
         top = trajgen.write_top(d, n_atoms)
         files = []
         for i, L in enumerate(lens):
-            xyz = (i * 40.0 + np.arange(L)[:, None, None] +
+            xyz = ((i % 50) * 40.0 + (i // 50) * 7.0 +
+                   np.arange(L)[:, None, None] +
                    np.arange(n_atoms)[None, :, None] * 0.01 +
                    np.arange(3)[None, None, :] * 0.001).astype(np.float32)
-            files.append(trajgen.write(d, 't%02d' % i, xyz, fmt=fmt))
+            files.append(trajgen.write(d, 't%03d' % i, xyz, fmt=fmt))
         mode = ['kwargs', 'args', 'plain', 'frames'][int(rng.integers(0, 4))]
         stride = int(rng.integers(1, 6))
         atoms = np.sort(rng.choice(n_atoms, size=int(rng.integers(
@@ -262,7 +269,8 @@ def run_trj(ctx, rng, idx):
             ctx.delays.clear()
             for i, f in enumerate(files):
                 ctx.delays[f] = (0.03 if i == 0 else
-                                 float(rng.uniform(0, 0.012)))
+                                 float(rng.uniform(0, 0.012 if not many
+                                                   else 0.002)))
             if os.path.exists(ctx.complog):
                 os.remove(ctx.complog)
             try:
